@@ -728,6 +728,13 @@ type responseChecker struct {
 }
 
 func (rw *responseChecker) EncodeToken(t xml.Token) error {
+	// Only what the encoder accepted has been written: a token that it refuses
+	// (a stray end element, a start element without a name) neither changes the
+	// nesting level nor counts as the reply.
+	err := rw.TokenWriter.EncodeToken(t)
+	if err != nil {
+		return err
+	}
 	switch tok := t.(type) {
 	case xml.StartElement:
 		_, _, id, typ := getIDTyp(tok.Attr)
@@ -738,8 +745,7 @@ func (rw *responseChecker) EncodeToken(t xml.Token) error {
 	case xml.EndElement:
 		rw.level--
 	}
-
-	return rw.TokenWriter.EncodeToken(t)
+	return nil
 }
 
 func (rw *responseChecker) Encode(v interface{}) error {
